@@ -127,56 +127,28 @@ Definition rule_present (raw : list nbr) (t : string * string * string) : bool :
 Lemma gen_covers_named_rules : forallb (rule_present gen_nameref_raw) named_rules = true.
 Proof. vm_compute. reflexivity. Qed.
 
-(* ================= finding 1: a row that can never select anything ================= *)
-
-Lemma split_first_no_char c s x y : split_first c s = Some (x, y) -> no_char c x = true.
-Proof.
-  revert x y. induction s as [|a s IH]; intros x y H; cbn in H; [discriminate|].
-  destruct (Ascii.eqb a c) eqn:E.
-  - inv H. reflexivity.
-  - destruct (split_first c s) as [[x' y']|]; [|discriminate]. inv H.
-    cbn. rewrite E. cbn. eapply IH. reflexivity.
-Qed.
-
-Lemma parsed_group_no_slash av : no_char "/"%char (fst (parse_group_version av)) = true.
-Proof.
-  unfold parse_group_version. destruct (split_first "/"%char av) as [[g v]|] eqn:E; [|reflexivity].
-  cbn. eapply split_first_no_char. eassumption.
-Qed.
+(* ================= every row selects the objects it is written for ================= *)
 
 (* the gvk of an object whose apiVersion field reads [av] *)
 Definition gvk_of (av k : string) (scoped : bool) : gvk :=
   mkGvk (fst (parse_group_version av)) (snd (parse_group_version av)) k scoped.
 
-Definition row_unreachable (b : nbr) : Prop :=
-  forall av k scoped, gvk_is_selected (gvk_of av k scoped) (nb_gvk b) = false.
+(* an apiVersion an object of the row's kind can carry: the row's group and version ("v1" when the row
+   leaves the version open) *)
+Definition row_api_version (b : nbr) : string :=
+  gvk_api_version (nb_group b) (if String.eqb (nb_version b) "" then "v1" else nb_version b).
 
-Lemma ingressclass_row_unreachable :
-  exists b, In b gen_nameref_raw /\ nb_kind b = "IngressClass" /\ nb_referrers b <> [] /\ row_unreachable b.
+(* No row of the table is dead: for each there is an apiVersion whose PARSED group / version, with the row's
+   kind, the row selects.  (Until /repo commit 9f584a1 the IngressClass row had the group
+   "networking.k8s.io/v1", which no parsed apiVersion can equal: the former finding
+   C03/rule-row-never-selects:IngressClass.) *)
+Lemma all_rows_reachable :
+  forall b, In b gen_nameref_raw ->
+            gvk_is_selected (gvk_of (row_api_version b) (nb_kind b) false) (nb_gvk b) = true.
 Proof.
-  exists (mkNbr "networking.k8s.io/v1" "v1" "IngressClass"
-                [mkFs "" "" "Ingress" "spec/ingressClassName" false]).
-  split; [vm_compute; tauto|]. split; [reflexivity|]. split; [discriminate|].
-  intros av k scoped. unfold gvk_is_selected, gvk_of, nb_gvk, gvk_lit. cbn [g_group nb_group].
-  assert (E: String.eqb (fst (parse_group_version av)) "networking.k8s.io/v1" = false).
-  { apply String.eqb_neq. intros Heq. pose proof (parsed_group_no_slash av) as H.
-    rewrite Heq in H. vm_compute in H. discriminate. }
-  rewrite E. reflexivity.
-Qed.
-
-(* every other row selects the objects it is written for *)
-Definition row_witness (b : nbr) : gvk :=
-  mkGvk (nb_group b) (if String.eqb (nb_version b) "" then "v1" else nb_version b) (nb_kind b) false.
-
-Lemma other_rows_reachable :
-  forall b, In b gen_nameref_raw -> nb_kind b <> "IngressClass" ->
-            exists g, gvk_is_selected g (nb_gvk b) = true.
-Proof.
-  assert (H: forallb (fun b => String.eqb (nb_kind b) "IngressClass" ||
-                               gvk_is_selected (row_witness b) (nb_gvk b)) gen_nameref_raw = true)
-    by (vm_compute; reflexivity).
-  intros b Hb Hk. rewrite forallb_forall in H. specialize (H b Hb).
-  apply orb_true_iff in H as [H|H]; [apply String.eqb_eq in H; contradiction|eauto].
+  assert (H: forallb (fun b => gvk_is_selected (gvk_of (row_api_version b) (nb_kind b) false) (nb_gvk b))
+                     gen_nameref_raw = true) by (vm_compute; reflexivity).
+  intros b Hb. rewrite forallb_forall in H. exact (H b Hb).
 Qed.
 
 (* ================= witnesses ================= *)
